@@ -6,4 +6,4 @@ def register(pid):
         return fn
     return deco
 
-from . import verify, store, conc, p2p  # noqa: E402,F401
+from . import verify, store, conc, p2p, syncer  # noqa: E402,F401
